@@ -124,6 +124,7 @@ func runC16(c *Ctx) {
 
 	// ---- K5: watcher needs a subscription -----------------------------------------
 	watchFn := c16Watcher(c, pkg)
+	watchEntry := c16WatcherEntry(c, pkg)
 	if watchFn == nil {
 		c.Unk("C16.K5-watcher-needs-subscription", "announce › watcher", token.NoPos, "no function in the package calls Subscription.Next on the receiver's subscription")
 	} else {
@@ -131,7 +132,7 @@ func runC16(c *Ctx) {
 		for _, f := range c.Funcs(pkg) {
 			instrsDeep(f.SSA, func(g *ssa.Function, in ssa.Instruction) {
 				goi, ok := in.(*ssa.Go)
-				if !ok || goi.Common().StaticCallee() != watchFn {
+				if !ok || goi.Common().StaticCallee() != watchEntry {
 					return
 				}
 				n++
@@ -171,7 +172,7 @@ func runC16(c *Ctx) {
 				nMk++
 				started := func(i ssa.Instruction) bool {
 					g, ok := i.(*ssa.Go)
-					return ok && g.Common().StaticCallee() == watchFn
+					return ok && g.Common().StaticCallee() == watchEntry
 				}
 				// already started before the store (same path), or started on every path after it
 				before := false
@@ -346,6 +347,47 @@ func ReachableFromSucc(b, target *ssa.BasicBlock) bool {
 }
 
 // c16Watcher finds the function that reads the pubsub subscription.
+// c16WatcherEntry: the function the watcher goroutine is started with — the
+// loop function itself, or a function that (directly or through same-package
+// helpers) runs it.
+func c16WatcherEntry(c *Ctx, pkg string) *ssa.Function {
+	loop := c16Watcher(c, pkg)
+	if loop == nil {
+		return nil
+	}
+	var entry *ssa.Function
+	for _, f := range c.Funcs(pkg) {
+		instrsDeep(f.SSA, func(_ *ssa.Function, in ssa.Instruction) {
+			g, ok := in.(*ssa.Go)
+			if !ok {
+				return
+			}
+			t := g.Common().StaticCallee()
+			if t == nil {
+				if mc, isMC := g.Common().Value.(*ssa.MakeClosure); isMC {
+					t, _ = mc.Fn.(*ssa.Function)
+				}
+			}
+			if t == nil {
+				return
+			}
+			if t == loop {
+				entry = t
+				return
+			}
+			for _, st := range c.CallsInl(t, Any(), 2) {
+				if st.In.Common().StaticCallee() == loop {
+					entry = t
+				}
+			}
+		})
+	}
+	if entry == nil {
+		return loop
+	}
+	return entry
+}
+
 func c16Watcher(c *Ctx, pkg string) *ssa.Function {
 	for _, f := range c.Funcs(pkg) {
 		if len(c.Calls(f.SSA, Call("go-libp2p-pubsub.Subscription).Next"))) > 0 {
